@@ -27,6 +27,11 @@ build_race() {
 }
 case "${1:-}" in
   setup) build; build_race; exit 0;;
+  selftest) build; build_race; shift
+    ids="${*:-C04 C05 C06 C10 C12 C13 C16 C20}"
+    bin/check selftest $ids || exit 2
+    bin/check-race selftest C17 || exit 2
+    exit 0;;
 esac
 ID="${1:?property id}"; MODE="${2:?quick|thorough|replay}"
 BIN=bin/check
